@@ -84,3 +84,7 @@ pub fn lookup(alpha: &[(String, BigUint)], name: &str) -> BigUint {
     }
     alpha.iter().find(|(n, _)| n == name).unwrap_or_else(|| panic!("unknown alphabet element {}", name)).1.clone()
 }
+
+/// identities that a "normalising" implementation would change (trailing / leading white space, line ends, NUL, case,
+/// a trailing byte equal to one of the SM9 hid values): each is a distinct legal identity
+pub const NORM_IDS: [&str; 12] = ["Bob\n", "Bob ", " Bob", "Bob\t", "Bob\r\n", "Bob\0", "BOB", "bob", "Bob\u{1}", "Bob\u{2}", "Bob\u{3}", "Bob"];
